@@ -230,6 +230,47 @@ Contract(
 )
 
 
+def _crep_rank(c, w):
+    d = c.field(c.self, "conditionals")
+    return SumFal(d.keys, d.val, c.field(c.self, "_impacts").t, Wof(w), LInt.len(d.keys))
+
+
+def _crep_cache(c):
+    """every cached rank is the impact sum of that world (lazy and forced computation agree)"""
+    from contracts.c_preocf import OptInt, mem_Str
+
+    d = c.field(c.self, "ranks")
+    w = z3.Const("_cc2_w", StrSort)
+    e = z3.Select(d.val, w)
+    return L.Forall([w], [mem_Str(d.keys, w)], z3.Implies(mem_Str(d.keys, w), z3.Or(OptInt.is_none(e), OptInt.val(e) == _crep_rank(c, w))), "crep.cache.invariant")
+
+
+def _crep_keys(c):
+    return c.field(c.self, "ranks").keys
+
+
+def _crep_frame(c):
+    return [
+        c.field(c.self, "conditionals").keys == c.field(c.old.self, "conditionals").keys,
+        c.field(c.self, "conditionals").val == c.field(c.old.self, "conditionals").val,
+        c.field(c.self, "_impacts").t == c.field(c.old.self, "_impacts").t,
+    ]
+
+
+Contract(
+    "inference.preocf:RandomMinCRepPreOCF.rank_world",
+    params={"self": CREP, "world": TStr, "force_calculation": TBool},
+    defaults={"force_calculation": lambda ex: VBool(False)},
+    returns=TInt,
+    requires=lambda c: [_keys_in_range(c), __import__("contracts.c_preocf", fromlist=["mem_Str"]).mem_Str(_crep_keys(c), c.world.t), _crep_cache(c)],
+    ensures=lambda c, r: [r.t == _crep_rank(c, c.world.t), _crep_keys(c) == _crep_keys(c.old), _crep_cache(c)],
+    modifies=["self.ranks"],
+    properties=["C17"],
+    note="the rank returned (computed now, forced, or read from the cache) is the sum of the impacts of the conditionals the world "
+    "falsifies; the cache keeps that meaning",
+)
+
+
 # ---------------------------------------------------------------------------
 # C10: the conditionals of a parsed base: file order, keys 1..n, consequent before the bar
 # ---------------------------------------------------------------------------
